@@ -1,6 +1,241 @@
 import Driver.Util
+import Sqfs.Model.Obj
+import Sqfs.Model.ObjKinds
+/-!
+`sqfsmodel c19 describe <kind>` / `describe-current <kind>`: the per-kind facts of the hook descriptions.
+`sqfsmodel c19 sim` / `sim-current`: heap simulation of the same scenario scripts as `harness/h_c19.c`
+(control lines `copy`, `failcopy k`, `drop x`, `grab x`, `ungrab x`, `dropenv`, `rcs`; every other `<target> …`
+line is an operation that dereferences the target's buffers), printing the same control-line answers.
+`sqfsmodel c19 tbl` / `xwr …`: the state-machine models of `Sqfs.Model.ObjKinds`.
+-/
 namespace Driver.C19
-/-- stub: the model driver for C19 is not built yet -/
-def run (_args : List String) : IO Unit := do
-  IO.eprintln "sqfsmodel: model C19 not built yet"
+open Sqfs.Obj
+
+def commaSep (l : List String) : String := ",".intercalate l
+
+def headerName : HeaderInit → String | .init => "init" | .memcpy => "memcpy" | .zeroed => "zeroed"
+def bufActName : BufAct → String | .dup => "dup" | .trim => "trim" | .alias => "alias"
+def refActName : RefAct → String | .grab => "grab" | .deep => "deep" | .alias => "alias"
+def viewActName : ViewAct → String | .repoint => "own" | .stale => "alias"
+
+def describe (D : Kind → CopyDesc) (k : Kind) : String :=
+  let d := D k
+  s!"kind={k.name} header={headerName d.header} bufs={commaSep (d.bufs.map bufActName)} refs={commaSep (d.refs.map refActName)} " ++
+  s!"self={commaSep (d.views.map (fun v => viewActName v.1))} capaware={if d.capAware then 1 else 0} " ++
+  s!"onfail={match d.onFail with | .unwind => "unwind" | .dropSlots => "dropslots" | .freeAliased _ => "freealiased"}"
+
+structure World where
+  h : Heap
+  kind : Kind
+  file : Nat
+  cmp : Nat
+  envAlive : Bool
+  objs : List (Option Nat)      -- o, c, t1, t2
+  started : Bool
+
+def World.init : World := ⟨Heap.empty, .gzip, 0, 0, false, [none, none, none, none], false⟩
+
+def targetIx : String → Option Nat
+  | "o" => some 0 | "c" => some 1 | "t1" => some 2 | "t2" => some 3 | _ => none
+
+def World.obj (w : World) (i : Nat) : Option Nat := (w.objs[i]?).join
+
+def rcOf (h : Heap) (id : Nat) : Nat := match h.objs id with | some o => o.rc | none => 0
+
+def sqfsDropF (h : Heap) (x : Nat) : Heap := sqfsDrop h x
+def believedSize : Nat := 8
+
+/-- the probe of `h_c19.c`, evaluated on the model heap: facts about copy `c` relative to original `o`;
+`before` = refcounts of `o`'s referenced objects before the copy -/
+def probe (h : Heap) (o c : Nat) (before : List Nat) : String :=
+  match h.objs o, h.objs c with
+  | some ob, some cb =>
+    let bufState (a b : Option Nat) : String :=
+      match a, b with
+      | none, none => "null"
+      | some _, none => "lost"
+      | none, some _ => "dup"
+      | some x, some y =>
+        if x = y then "alias"
+        else match h.bufs x, h.bufs y with
+          | some bx, some by_ => if by_.cap < bx.cap then "trim" else "dup"
+          | _, _ => "dead"
+    let refState (a b : Option Nat) (bef : Nat) : String :=
+      match a, b with
+      | none, none => "null"
+      | some _, none => "lost"
+      | none, some _ => "deep"
+      | some x, some y =>
+        if x ≠ y then
+          match h.objs y with
+          | some t => if t.rc = 1 ∧ t.destroy ∧ t.copy then "deep" else "deep-bad"
+          | none => "dead"
+        else if rcOf h y = bef + 1 then "grab" else "alias"
+    let viewState (a b : Option Nat) : String :=
+      match a, b with
+      | none, none => "null"
+      | some _, none => "lost"
+      | none, some _ => "own"
+      | some x, some y => if x = y then "alias" else "own"
+    let bufs := (ob.bufs.zip cb.bufs).map fun (a, b) => bufState a b
+    let refs := ((ob.refs.zip cb.refs).zip before).map fun ((a, b), n) => refState a b n
+    let views := (ob.views.zip cb.views).map fun (a, b) => viewState a b
+    s!"rc={cb.rc} destroy={if cb.destroy then 1 else 0} copy={if cb.copy then 1 else 0} bufs={commaSep bufs} refs={commaSep refs}" ++
+      (if views.isEmpty then "" else s!" self={commaSep views}")
+  | _, _ => "dead"
+
+/-- slot masks: `0` empty, `1` present (buffers: completely used), `h` buffer half used, `e` buffer allocated but unused -/
+def parseMask (s : String) : List Char := if s = "-" then [] else s.toList
+
+/-- populate the empty slots of object `id` as the pre-copy history did (buffers appear when the kind caches / grows) -/
+def applyShape (w : World) (id : Nat) (bm vm rm : List Char) : Heap :=
+  let h := w.h
+  match h.objs id with
+  | none => h
+  | some o =>
+    -- buffers
+    let usedOf (c : Char) : Nat := if c = 'h' then believedSize / 2 else if c = 'e' then 0 else believedSize
+    let (h, nb) := (o.bufs.zip (bm ++ List.replicate o.bufs.length '0')).foldl (fun (acc : Heap × List (Option Nat)) (s, want) =>
+        let (h, l) := acc
+        match s, want with
+        | s, '0' => (h, l ++ [s])
+        | none, c => let (h, b) := newBuf h ⟨believedSize, usedOf c, 0⟩; (h, l ++ [some b])
+        | some b, c => ({ h with bufs := upd h.bufs b (some ⟨believedSize, usedOf c, 0⟩) }, l ++ [some b])) (h, [])
+    -- references (only the xattr reader starts with empty reference slots: `sqfs_xattr_reader_load`)
+    let (h, nr) := (o.refs.zip (rm ++ List.replicate o.refs.length '0')).foldl (fun (acc : Heap × List (Option Nat)) (s, want) =>
+        let (h, l) := acc
+        match s, want with
+        | none, '1' => let (h, m) := newMetaReader h w.file w.cmp; (h, l ++ [some m])
+        | s, _ => (h, l ++ [s])) (h, [])
+    -- internal pointers: point into the own buffer slot named by the description
+    let d := desc o.kind
+    let nv := ((o.views.zip d.views).zip (vm ++ List.replicate o.views.length '0')).map fun ((v, (_, slot)), want) =>
+        match v, want with
+        | none, '1' => listGet nb slot
+        | v, _ => v
+    { h with objs := upd h.objs id (some { o with bufs := nb, refs := nr, views := nv }) }
+
+def crashName (h : Heap) : String := match h.crash with | some c => c.name | none => "ok"
+
+def liveCount (h : Heap) : Nat :=
+  ((List.range h.nobj).filter (fun i => (h.objs i).isSome)).length + ((List.range h.nbuf).filter (fun i => (h.bufs i).isSome)).length
+
+def usesEnv : Kind → Bool
+  | .metaReader | .dirReader | .dataReader | .xattrReader => true
+  | _ => false
+
+def stepLive (D : Kind → CopyDesc) (w : World) (line : String) : World × String :=
+  match words line with
+  | "scenario" :: _tag :: kname :: _ =>
+    match Kind.ofName (if kname = "comp" then "gzip" else kname) with
+    | none => (World.init, "bad-op")
+    | some k0 =>
+      -- `comp <name> <mode>`: the concrete compressor is the 4th word
+      let k := if kname = "comp" then ((words line)[3]?.bind Kind.ofName).getD .gzip else k0
+      let h := Heap.empty
+      -- the scenario's environment: the user's own file and compressor (only for the kinds that reference them)
+      let (h, f, c) := if usesEnv k then
+          let (h, f) := newObj h .file [] [] []
+          let (h, c) := newObj h .gzip [] [] []
+          (h, f, c)
+        else (h, 0, 0)
+      let (h, o) := construct h k f c
+      let (h, t1) := construct h k f c
+      let (h, t2) := construct h k f c
+      (⟨h, k, f, c, usesEnv k, [some o, none, some t1, some t2], true⟩, "scenario")
+  | ["shape", b, v, r] =>
+    let bm := parseMask b; let vm := parseMask v; let rm := parseMask r
+    let w := [0, 2, 3].foldl (fun (w : World) i => match w.obj i with
+      | some id => { w with h := applyShape w id bm vm rm }
+      | none => w) w
+    (w, "shape")
+  | "copy" :: rest | "failcopy" :: rest =>
+    match w.obj 0, w.obj 1 with
+    | some o, none =>
+      let k : Option Nat := match (words line).head?, rest with
+        | some "failcopy", ks :: _ => ks.toNat?.bind (fun k => if k = 0 then none else some (k - 1))
+        | _, _ => none
+      let before := match w.h.objs o with
+        | some ob => ob.refs.map fun r => match r with | some r => rcOf w.h r | none => 0
+        | none => []
+      let (h, c) := sqfsCopyTop D { w.h with budget := k } o
+      let h := { h with budget := none }
+      match h.crash, c with
+      | some cr, _ => ({ w with h := h }, s!"crash {cr.name}")
+      | none, none => ({ w with h := h }, "copy NULL")
+      | none, some c => ({ w with h := h, objs := w.objs.set 1 (some c) }, s!"copy ok {probe h o c before}")
+    | _, _ => (w, "bad-op")
+  | ["drop", t] =>
+    match targetIx t with
+    | some i =>
+      match w.obj i with
+      | some id =>
+        let h := sqfsDropF w.h id
+        let w := { w with h := h, objs := w.objs.set i none }
+        match h.crash with
+        | some cr => (w, s!"crash {cr.name}")
+        | none => (w, s!"drop {t} file={if w.envAlive then rcOf h w.file else 0} cmp={if w.envAlive then rcOf h w.cmp else 0}")
+      | none => (w, "no-object")
+    | none => (w, "bad-op")
+  | ["grab", t] =>
+    match (targetIx t).bind w.obj with
+    | some id => let h := grab w.h id; ({ w with h := h }, s!"grab {t} {rcOf h id}")
+    | none => (w, "bad-op")
+  | ["ungrab", t] =>
+    match (targetIx t).bind w.obj with
+    | some id => let h := sqfsDropF w.h id; ({ w with h := h }, s!"ungrab {t} {rcOf h id}")
+    | none => (w, "bad-op")
+  | ["rcs"] => (w, s!"rcs file={if w.envAlive then rcOf w.h w.file else 0} cmp={if w.envAlive then rcOf w.h w.cmp else 0}")
+  | ["dropenv"] =>
+    if w.envAlive then
+      let h := sqfsDropF (sqfsDropF w.h w.file) w.cmp
+      ({ w with h := h, envAlive := false }, match h.crash with | some cr => s!"crash {cr.name}" | none => "dropenv")
+    else (w, "dropenv")
+  | ["end"] =>
+    -- teardown as in the harness: drop what is left, then the environment; then the leak check
+    let h := w.objs.foldl (fun h o => match o with | some id => sqfsDropF h id | none => h) w.h
+    let h := if w.envAlive then sqfsDropF (sqfsDropF h w.file) w.cmp else h
+    let cls := match h.crash with
+      | some cr => cr.name
+      | none => if liveCount h = 0 then "ok" else "leak"
+    (World.init, s!"exit {cls}")
+  | t :: op :: _ =>
+    match (targetIx t).bind w.obj with
+    | some id =>
+      let h := touch w.h id
+      -- an operation marked `!` indexes the cached buffers up to the size the kind believes they have (kinds that
+      -- record the allocated size next to the pointer never do)
+      let h := match h.objs id with
+        | some o => if (D o.kind).capAware || !op.endsWith "!" then h else
+            (List.range o.bufs.length).foldl (fun h s => indexSlot h id s (believedSize - 1)) h
+        | none => h
+      ({ w with h := h }, match h.crash with | some cr => s!"crash {cr.name}" | none => "op")
+    | none => (w, if (targetIx t).isSome then "no-object" else "bad-op")
+  | _ => (w, "bad-op")
+
+/-- a crashed heap is absorbing: every later line up to `end` answers with the crash -/
+def step (D : Kind → CopyDesc) (w : World) (line : String) : World × String :=
+  match w.h.crash, words line with
+  | some cr, "scenario" :: _ => let _ := cr; stepLive D w line
+  | some cr, ["end"] => let _ := cr; stepLive D w line
+  | some cr, _ => (w, s!"crash {cr.name}")
+  | none, _ => stepLive D w line
+
+def run (args : List String) : IO Unit := do
+  let out ← IO.getStdout
+  match args with
+  | ["describe", k] => match Kind.ofName k with
+    | some k => out.putStrLn (describe desc k)
+    | none => out.putStrLn "bad-op"
+  | ["describe-current", k] => match Kind.ofName k with
+    | some k => out.putStrLn (describe descCurrent k)
+    | none => out.putStrLn "bad-op"
+  | ["sim-current"] => stateLoop (← IO.getStdin) out (step descCurrent) World.init
+  | ["sim-mix", ks] =>
+    -- the listed kinds have their current hook, all others the repaired one (a tree with some of the fixes applied)
+    let cur := (ks.splitOn ",").filterMap Kind.ofName
+    stateLoop (← IO.getStdin) out (step fun k => if cur.contains k then descCurrent k else desc k) World.init
+  | ["tbl"] => stateLoop (← IO.getStdin) out Kinds.tblStep Kinds.TblWorld.init
+  | _ => stateLoop (← IO.getStdin) out (step desc) World.init
+
 end Driver.C19
